@@ -174,6 +174,8 @@ def main(task):
             run_enum(sub, ctx, acc, task["shard"], task["nshards"])
         elif sub.kind == "machine":
             run_machine(sub, ctx, acc, task["n"], seedval)
+        elif sub.kind == "custom":
+            sub.run(ctx, acc, task)
         else:
             raise env.HarnessError(f"unknown kind {sub.kind}")
         nt_file = None
